@@ -197,6 +197,8 @@ def setup_gather(wp):
     wp.on_access = on_access_indexed
     wp.track_gather = True
     wp.assume(f'(=> (and (<= 0 {wp.G}) (< {wp.G} {wp.dim("indices", 0)})) (and (<= 0 {wp.IG}) (< {wp.IG} {wp.dim("self", 0)})))')
+    # ... and on a non-empty list it implies that this tensor has rows at all (0 <= indices.min() <= indices.max() < size<0>())
+    wp.assume(f'(=> (> {wp.dim("indices", 0)} 0) (> {wp.dim("self", 0)} 0))')
 
 
 def build():
